@@ -55,7 +55,13 @@ KERNELS = {"ssb": ["ssb", "single-sideband", "acbf", "aberration-corrected-brigh
 _ctx = {}
 
 
+_SETUP_DONE = []
+
+
 def setup():
+    if _SETUP_DONE:
+        return
+    _SETUP_DONE.append(1)
     from .. import core
 
     core.use_repo()
